@@ -6,6 +6,7 @@ cd "$(dirname "$0")"
 export CARGO_NET_OFFLINE=true
 python3 tools/constants.py || echo "setup: constants.py failed"
 [ -f tools/locks_extract.py ] && { python3 tools/locks_extract.py || echo "setup: locks_extract.py failed"; }
+[ -f tools/iter_extract.py ] && { python3 tools/iter_extract.py || echo "setup: iter_extract.py failed"; }
 ./coq/build.sh -k || echo "setup: Coq build incomplete (each check rebuilds its own targets)"
 [ -f harness/Cargo.lock ] || cp /repo/Cargo.lock harness/Cargo.lock
 cd harness
